@@ -13,15 +13,15 @@ P = {
          "alignUp axioms (align_offset saturates at u32::MAX, C04-E6a); map backings: offset and maximum alignment are validated against the page alignment (A6, A7).", "3.C03", "affine value numbering + order prover (alignment/capacity terms)"),
  "C04": ("Decides read-only guard first, capacity guard dominance, no effect before any Err (single-thread projection), checked arithmetic on request sizes, enumerated panic sites, and that every Add/Sub/Mul and every narrowing cast of a type size reachable from the allocation entry points is bounded by guards / type widths or by a named arena invariant. Does not decide 'state exactly as before' beyond absence of effects.",
          "Arena invariants named in ARITH_JUSTIFIED (list / Meta extents below cap) are taken from C01 / C03 / C10.", "3.C04", "taint of request sizes to arithmetic sites + effect/dominance rules + order prover (Fourier-Motzkin) on every arithmetic site"),
- "C05": ("Decides the persistence discipline (state only in the in-file header, offsets only, reopen writes only above the stored cursor, caches derived from the file, and the open functions refuse a stored cursor only when it is outside [data_offset, mapped length]). Does not decide equality of observations across reopen over histories.",
+ "C05": ("Decides the persistence discipline (state only in the in-file header, offsets only, reopen writes only above the stored cursor, caches derived from the file, the open functions refuse a stored cursor only when it is outside [data_offset, mapped length], and Options::open sizes / reports as created only a file it has just created). Does not decide equality of observations across reopen over histories.",
          "OS page cache and memmap2 semantics.", "3.C05", "who-writes / provenance / effect rules over MIR"),
- "C06": ("Decides the order of persistent writes inside each operation (incl. clear: unpublish before wipe; creation: header before identification bytes), that reopen validates the stored cursor and re-zeroes above it; reports the unrecoverable mark window. Does not decide crash behaviour over crash points x histories.",
+ "C06": ("Decides the order of persistent writes inside each operation (incl. clear: unpublish before wipe; creation: header before identification bytes), that reopen validates the stored cursor and re-zeroes above it, that a file arena keeps header and identification block in the file whatever the unify option says (clear), that an existing file is never re-sized before validation; reports the unrecoverable mark window. Does not decide crash behaviour over crash points x histories.",
          "Program order = persistence order for a killed process (shared mapping).", "3.C06", "write-ordering dominance rules + recovery reachability (call graph)"),
  "C07": ("Decides that every loop cycle carries a progress token (a wait on a marker counts only if the cycle re-reads the link it followed), that every marker completes or undoes its mark, that the marker value is unambiguous, and that a pop unlinks only from a word known to be linked (the pessimistic pop does not: known finding T6). Does not decide termination under fairness in general.",
          "Failed CAS => another thread progressed; list finite (C10).", "3.C07", "loop classification + mark/unlink pairing on CAS outcome edges"),
  "C08": ("Decides that every returned alloc_bytes buffer is zeroed over exactly its accessible extent on all paths, all backends.",
          "ptr::write_bytes model; exclusivity from C01/C02.", "3.C08", "must-pass-through (clear after last extent store) + term rule on Meta::clear"),
- "C09": ("Decides size-check-before-map, validation-dominates-writes, completeness of the validator against the writer's offsets, read-only constructor flags, ro-guard coverage of the safe mutating API, the open-function dispatch table, checked offset / length arithmetic on the open path (no underflow, no u64 overflow, no narrowing of a mapping longer than u32::MAX).",
+ "C09": ("Decides size-check-before-map, validation-dominates-writes, completeness of the validator against the writer's offsets, read-only constructor flags, ro-guard coverage of the safe mutating API, the open-function dispatch table, checked offset / length arithmetic on the open path (no underflow, no u64 overflow, no narrowing of a mapping longer than u32::MAX), and that Options::open calls set_len / reports `created` only with the evidence that the file is new on every path.",
          "File::set_len extension only; user-requested truncate(true) out of scope.", "3.C09", "dominance on validation outcome edges + effect summaries + constant rules"),
  "C10": ("Decides the policy structure (comparators, head-pop/first-fit, fail-iff guards, remainder threshold and policy, None arm, insertion loop shape) and that cursor-lowering operations keep the list below the cursor (F7: rewind does not - known finding). Well-formedness at quiescent points follows from C01's invariant by a written argument (Appendix A.2).",
          "-", "3.C10", "comparator/guard term rules + sibling agreement"),
@@ -43,7 +43,7 @@ P = {
          "Re-map failure paths not judged.", "3.C18", "dominance + term + effect rules on truncate"),
  "C19": ("Decides that checksum feeds one hasher an ordered, gap-free, overlap-free cover of allocated_memory()[reserved..] for every length, page size and content: a symbolic consumed-position is propagated over the CFG with loop invariants checked at entry and over the back edge, exact product and div/mod arithmetic, and must equal data.len() at every return. Equality of the digest then rests on the streaming contract of Checksumer.",
          "Checksumer::update is a streaming fold (update(a); update(b) = update(a ++ b)); page_size() != 0; slice::chunks contract.", "3.C19", "position dataflow with checked loop invariants over MIR (ordered contiguous cover)"),
- "C20": ("Decides who writes discarded and by how much at each release class, accumulator = increments in discard_freelist, exit only on empty list.",
+ "C20": ("Decides who writes discarded and by how much at each release class, accumulator = increments in discard_freelist, exit only on empty list, and that a release too small to become a segment is never linked (segment extent lemma).",
          "The counter wraps at 2^32: reported by D7 as a known finding (not repaired).", "3.C20", "who-writes + increment terms + dominance"),
 }
 NA = {
